@@ -11,22 +11,28 @@
     trailing comma . `array_after_sep` on ']' , `object_field_start_after_sep` on '}'
     control byte ... `string` / `object_field` on a byte ≤ 0x1f
     leading zero ... the number classification on saved text "0d…" / "-0d…"
+    bare exponent .. scanning accepts it; default mode trims it before strtod, strict mode does not
     trailing bytes . the epilogue when the top-level value is complete and a byte follows
 
   The lifting to documents is `default_accepts_extensions` / `strict_rejects_extensions` at the end
   of this file: for every RFC 8259 document with any number of comments, trailing commas, single-
-  quoted strings / member names, raw control characters in strings / names and non-lowercase
-  literals at any admissible positions
-  (`Spec/Rfc8259X.lean`), default mode returns the value of the original document and strict mode
-  fails - two inductions over the extended document type (Lemmas/TokenerXDoc1-4, TokenerXRej1-5).
-  Trailing bytes are `trailing_bytes` (whole documents, three modes).  Leading zeros and digit-less
-  exponents are covered by the per-token theorems here; the differential run decides all eight forms on every
-  admissible position of every generated document.
+  quoted strings / member names, raw control characters in strings / names, non-lowercase
+  literals, superfluous leading zeros and digit-less exponents at any admissible positions
+  (`Spec/Rfc8259X.lean`), default mode succeeds with `XDoc.denote` - which IS the value of the original
+  document when no number carries a number extension (`default_value_is_original`), and is that value up
+  to the source text a double retains when numbers do (`default_value_same_numbers`; a digit-less
+  exponent on an integer, `1e`, turns it into a double: not value-neutral, and excluded there) - and
+  strict mode fails: two inductions over the extended document type (Lemmas/TokenerXDoc1-4,
+  TokenerXRej1-5; number tokens: Lemmas/TokenerXNum).  What is assumed of strtod on such numbers is the
+  named hypothesis `LibcSpecX` (proved for the reference conversion: `refLibc_x`).
+  Trailing bytes are `trailing_bytes` (whole documents, three modes).  The differential run decides all
+  eight forms on every admissible position of every generated document.
 -/
 import JsonC.Props.C04
 import JsonC.Spec.Rfc8259
 import JsonC.Lemmas.TokenerXRej5
 import JsonC.Lemmas.TokenerXTrail
+import JsonC.Lemmas.TokenerXVal
 import JsonC.Props.C01
 
 namespace JsonC.Tokener
@@ -166,30 +172,61 @@ upper-case letters may occur, any number of times, at every
 position where they are syntactically possible; `erase` is the original RFC 8259 text. -/
 
 open Rfc8259X in
-/-- **default mode accepts every such text, with the value of the original document**: any depth
-limit, any document, any combination of the value-neutral extensions at any positions. -/
-theorem default_accepts_extensions (lc : Libc) (hl : LibcSpec lc) (depth : Int) (t : Tok) (hnew : Tokener.new depth 0 = some t)
+/-- **default mode accepts every such text**: any depth limit, any document, any combination of the
+extensions (comments, trailing commas, single quotes, control characters, literal case, leading zeros,
+digit-less exponents) at any positions; the value returned is `XDoc.denote` - see the next two
+theorems for how it relates to the value of the original document. -/
+theorem default_accepts_extensions (lc : Libc) (hl : LibcSpec lc) (hx : LibcSpecX lc) (depth : Int) (t : Tok)
+    (hnew : Tokener.new depth 0 = some t)
     (x : XText) (hok : x.ok = true) (hknf : x.doc.erase.keysNulFree = true) (hdepth : x.doc.erase.nest + 1 ≤ depth.toNat) :
     let f := parseEx lc t (x.text ++ [0])
-    f.err = .success ∧ f.value = some x.erase.doc.denote ∧ f.offset = x.text.length ∧ f.stuck = false ∧ f.fault = none := by
+    f.err = .success ∧ f.value = some x.doc.denote ∧ f.offset = x.text.length ∧ f.stuck = false ∧ f.fault = none := by
   obtain ⟨hv, hhs, hst, hmd, hstrict⟩ := noVal_of_flags depth 0 t hnew (Or.inl rfl)
   have hns : t.strict = false := by
     cases h : t.strict with
     | false => rfl
     | true => have := hstrict.mp h; cases this
-  exact xtop_level lc hl t (new_wf depth 0 t hnew) hst hv hhs hns x hok hknf (by rw [hmd]; omega)
+  exact xtop_level lc hl hx t (new_wf depth 0 t hnew) hst hv hhs hns x hok hknf (by rw [hmd]; omega)
+
+open Rfc8259X in
+/-- **the value is the value of the original document** for every combination of comments, trailing
+commas, single quotes, control characters and literal case (no number extension) -/
+theorem default_value_is_original (x : XDoc) (hp : x.numsPlain = true) : x.denote = x.erase.denote :=
+  denote_eq_erase x hp
+
+open Rfc8259X in
+/-- **…and with leading zeros / digit-less exponents it is the same value up to the source text a
+double retains** (`[01.5, 007]` is `[1.5, 7]`, the double keeping "01.5" for re-serialization), as long
+as no digit-less exponent turns an integer into a double -/
+theorem default_value_same_numbers (x : XDoc) (hk : x.kindsKept = true) : dropText x.denote = dropText x.erase.denote :=
+  denote_same_numbers x hk
 
 open Rfc8259X in
 /-- the value returned for the text with extensions is the value returned for the original text
 (when that one is well-formed RFC 8259: `parse_valid`) -/
-theorem default_same_value_as_original (lc : Libc) (hl : LibcSpec lc) (depth : Int) (t : Tok) (hnew : Tokener.new depth 0 = some t)
+theorem default_same_value_as_original (lc : Libc) (hl : LibcSpec lc) (hx : LibcSpecX lc) (depth : Int) (t : Tok)
+    (hnew : Tokener.new depth 0 = some t)
     (x : XText) (hok : x.ok = true) (hok' : x.erase.doc.ok = true) (hknf : x.doc.erase.keysNulFree = true)
-    (hdepth : x.doc.erase.nest + 1 ≤ depth.toNat) :
+    (hdepth : x.doc.erase.nest + 1 ≤ depth.toNat) (hnp : x.doc.numsPlain = true) :
     (parseEx lc t (x.text ++ [0])).value = (parseEx lc t (x.erase.text ++ [0])).value ∧
     (parseEx lc t (x.text ++ [0])).err = (parseEx lc t (x.erase.text ++ [0])).err := by
-  have h1 := default_accepts_extensions lc hl depth t hnew x hok hknf hdepth
+  have h1 := default_accepts_extensions lc hl hx depth t hnew x hok hknf hdepth
   have h2 := Props.C01.parse_valid lc hl depth 0 (Or.inl rfl) t hnew x.erase hok' hknf (fun h => by cases h) hdepth
-  exact ⟨h1.2.1.trans h2.2.1.symm, h1.1.trans h2.1.symm⟩
+  refine ⟨?_, h1.1.trans h2.1.symm⟩
+  rw [h1.2.1, h2.2.1, denote_eq_erase x.doc hnp]; rfl
+
+open Rfc8259X in
+/-- …and with number extensions that keep every number's kind, the two values are the same up to the
+source text doubles retain -/
+theorem default_same_numbers_as_original (lc : Libc) (hl : LibcSpec lc) (hx : LibcSpecX lc) (depth : Int) (t : Tok)
+    (hnew : Tokener.new depth 0 = some t)
+    (x : XText) (hok : x.ok = true) (hok' : x.erase.doc.ok = true) (hknf : x.doc.erase.keysNulFree = true)
+    (hdepth : x.doc.erase.nest + 1 ≤ depth.toNat) (hk : x.doc.kindsKept = true) :
+    ∃ v w, (parseEx lc t (x.text ++ [0])).value = some v ∧ (parseEx lc t (x.erase.text ++ [0])).value = some w ∧
+      dropText v = dropText w := by
+  have h1 := default_accepts_extensions lc hl hx depth t hnew x hok hknf hdepth
+  have h2 := Props.C01.parse_valid lc hl depth 0 (Or.inl rfl) t hnew x.erase hok' hknf (fun h => by cases h) hdepth
+  exact ⟨_, _, h1.2.1, h2.2.1, denote_same_numbers x.doc hk⟩
 
 open Rfc8259X in
 /-- **strict mode rejects every such text that contains at least one extension**, whatever else
@@ -197,7 +234,8 @@ it contains and wherever the extension stands: the call ends with an error statu
 never "continue"), returns no value, and no step of the run is undefined.  (Integers of the
 original document within 64 bits and nesting within the limit: otherwise strict mode fails for
 those reasons.) -/
-theorem strict_rejects_extensions (lc : Libc) (hl : LibcSpec lc) (depth : Int) (t : Tok) (hnew : Tokener.new depth 1 = some t)
+theorem strict_rejects_extensions (lc : Libc) (hl : LibcSpec lc) (hx : LibcSpecX lc) (depth : Int) (t : Tok)
+    (hnew : Tokener.new depth 1 = some t)
     (x : XText) (hok : x.ok = true) (hfit : x.doc.erase.intsFit = true) (hknf : x.doc.erase.keysNulFree = true)
     (hdepth : x.doc.erase.nest + 1 ≤ depth.toNat) (hext : x.plain = false) :
     let f := parseEx lc t (x.text ++ [0])
@@ -205,7 +243,7 @@ theorem strict_rejects_extensions (lc : Libc) (hl : LibcSpec lc) (depth : Int) (
   obtain ⟨hv, hhs, hst, hmd, hstrict⟩ := noVal_of_flags depth 1 t hnew (Or.inr rfl)
   have hland : (1 &&& Generated.tokenerAllowTrailing) = 0 := by decide
   have hat : t.allowTrailing = false := by rw [new_eq_fresh hnew]; simp [Tok.allowTrailing, freshTok, hland]
-  exact xtop_level_strict lc hl t (new_wf depth 1 t hnew) hst hv hhs (hstrict.mpr rfl) hat x hok hfit hknf
+  exact xtop_level_strict lc hl hx t (new_wf depth 1 t hnew) hst hv hhs (hstrict.mpr rfl) hat x hok hfit hknf
     (by rw [hmd]; omega) hext
 
 /-- **trailing non-whitespace after the value, on whole documents**: any RFC 8259 text followed by a
@@ -233,7 +271,7 @@ theorem plain_is_rfc8259 (x : XText) (hok : x.ok = true) (hp : x.plain = true) :
 open Rfc8259X in
 /-- non-vacuity: `[1, /*c*/ 'a', TRUE,]` is such a text, it is not plain, and its original is `[1, "a", true]` -/
 def sampleX : XText :=
-  ⟨[], .arr [] [([], .num ⟨false, [1], none, none⟩, []),
+  ⟨[], .arr [] [([], .num (.ofNum ⟨false, [1], none, none⟩), []),
                ([.ws .sp, .block [99], .ws .sp], .str .sq [.raw 97], []),
                ([.ws .sp], .lit .true_ [true, true, true, true], [])] (some []), []⟩
 
@@ -250,6 +288,41 @@ example : sampleX.ok = true ∧ sampleX.plain = false ∧ sampleX.doc.erase.keys
     sampleX.doc.erase.nest = 1 ∧
     sampleX.text = [91, 49, 44, 32, 47, 42, 99, 42, 47, 32, 39, 97, 39, 44, 32, 84, 82, 85, 69, 44, 93] := by
   refine ⟨?_, ?_, ?_, ?_, ?_, ?_⟩ <;> decide
+
+open Rfc8259X in
+/-- numbers with number extensions: `[007,-01.5e1,2.5E-,1e+]` -/
+def sampleNums : XText :=
+  ⟨[], .arr [] [([], .num ⟨⟨false, [7], none, none⟩, 2, none⟩, []),
+               ([], .num ⟨⟨true, [1], some [5], some (false, none, [1])⟩, 1, none⟩, []),
+               ([], .num ⟨⟨false, [2], some [5], none⟩, 0, some (true, some true)⟩, []),
+               ([], .num ⟨⟨false, [1], none, none⟩, 0, some (false, some false)⟩, [])] none, []⟩
+
+open Rfc8259X in
+example : sampleNums.ok = true ∧ sampleNums.plain = false ∧ sampleNums.doc.kindsKept = false ∧
+    sampleNums.text = [91, 48, 48, 55, 44, 45, 48, 49, 46, 53, 101, 49, 44, 50, 46, 53, 69, 45, 44, 49, 101, 43, 93] ∧
+    sampleNums.erase.text = [91, 55, 44, 45, 49, 46, 53, 101, 49, 44, 50, 46, 53, 44, 49, 93] := by
+  refine ⟨?_, ?_, ?_, ?_, ?_⟩ <;> decide
+
+open Rfc8259X in
+/-- the hypotheses about libc are satisfiable: the reference conversions meet both, so the two
+document theorems hold outright for the reference libc -/
+theorem extensions_reference (depth : Int) (x : XText) (hok : x.ok = true) (hknf : x.doc.erase.keysNulFree = true)
+    (hdepth : x.doc.erase.nest + 1 ≤ depth.toNat) :
+    (∀ t, Tokener.new depth 0 = some t → (parseEx refLibc t (x.text ++ [0])).err = .success ∧
+      (parseEx refLibc t (x.text ++ [0])).value = some x.doc.denote) ∧
+    (∀ t, Tokener.new depth 1 = some t → x.doc.erase.intsFit = true → x.plain = false →
+      (parseEx refLibc t (x.text ++ [0])).err ≠ .success ∧ (parseEx refLibc t (x.text ++ [0])).value = none) := by
+  refine ⟨fun t hnew => ?_, fun t hnew hfit hnp => ?_⟩
+  · have := default_accepts_extensions refLibc refLibc_ok refLibc_x depth t hnew x hok hknf hdepth
+    exact ⟨this.1, this.2.1⟩
+  · have := strict_rejects_extensions refLibc refLibc_ok refLibc_x depth t hnew x hok hfit hknf hdepth hnp
+    exact ⟨this.1, this.2.2.1⟩
+
+/-- non-vacuity: the model rejects `[1e]` and `[2.5E-]` in strict mode and accepts them in default mode -/
+example : ∃ s d, Tokener.new 32 1 = some s ∧ Tokener.new 32 0 = some d ∧
+    (parseExZ refLibc s [91, 49, 101, 93]).err = .number ∧ (parseExZ refLibc d [91, 49, 101, 93]).err = .success ∧
+    (parseExZ refLibc s [91, 50, 46, 53, 69, 45, 93]).err = .number ∧ (parseExZ refLibc d [91, 50, 46, 53, 69, 45, 93]).err = .success := by
+  refine ⟨_, _, rfl, rfl, ?_, ?_, ?_, ?_⟩ <;> decide
 
 /-- non-vacuity: the model rejects `[1,]`, `{'a':1}`, `01`, `1 x`, `[1 /*c*/]` in strict mode and accepts them in default mode -/
 example : ∃ s d, Tokener.new 32 1 = some s ∧ Tokener.new 32 0 = some d ∧
